@@ -144,12 +144,12 @@ func ruxReplay(s *Summary, raw json.RawMessage) {
 			break
 		}
 	}
-	opts := []func(*rux.Router){rux.CachingWithNum(uint16(serve.Cap))}
+	opts := cachingOpts(serve.Cap)
 	if serve.Hmna {
 		opts = append(opts, rux.HandleMethodNotAllowed)
 	}
 	log := [][]any{}
-	x := &ruxExec{r: rux.New(opts...), log: &log}
+	x := &ruxExec{r: newRouter(opts...), log: &log}
 	x.r.OnError = func(c *rux.Context) { c.SetStatus(500) }
 	x.r.OnPanic = func(c *rux.Context) {
 		c.SetStatus(503)
